@@ -848,7 +848,11 @@ func Eq(a, b *T) *T {
 
 func Ne(a, b *T) *T { return BNot(Eq(a, b)) }
 
-func Ult(a, b *T) *T {
+func Ult(a, b *T) *T { return ult(a, b, true) }
+
+func ultRaw(a, b *T) *T { return ult(a, b, false) }
+
+func ult(a, b *T, norm bool) *T {
 	chk(a, b)
 	a, b = single(a), single(b)
 	if a.IsConst() && b.IsConst() {
@@ -866,15 +870,19 @@ func Ult(a, b *T) *T {
 		return False
 	}
 	if a.Op == OZExt && b.Op == OZExt && a.A[0].W == b.A[0].W {
-		return Ult(a.A[0], b.A[0])
+		return ult(a.A[0], b.A[0], norm)
 	}
 	if a.Op == OZExt && b.IsConst() && b.C <= Mask(a.A[0].W) {
-		return Ult(a.A[0], Const(a.A[0].W, b.C))
+		return ult(a.A[0], Const(a.A[0].W, b.C), norm)
 	}
 	if b.Op == OZExt && a.IsConst() && a.C <= Mask(b.A[0].W) {
-		return Ult(Const(b.A[0].W, a.C), b.A[0])
+		return ult(Const(b.A[0].W, a.C), b.A[0], norm)
 	}
-	if r, ok := linUlt(a, b); ok {
+	if norm {
+		if r := linCmp(a, b, false); r != nil {
+			return r
+		}
+	} else if r, ok := linUlt(a, b); ok {
 		return Bool(r)
 	}
 	return mk(OUlt, 0, a, b)
@@ -900,6 +908,9 @@ func Slt(a, b *T) *T {
 	}
 	if nonNeg(a) && nonNeg(b) {
 		return Ult(a, b)
+	}
+	if r := linCmp(a, b, true); r != nil {
+		return r
 	}
 	return mk(OSlt, 0, a, b)
 }
@@ -1427,4 +1438,25 @@ func (t *T) str(d int) string {
 		return t.Name + "(" + strings.Join(as, ",") + ")"
 	}
 	return "(" + opName[t.Op] + " " + strings.Join(as, " ") + ")"
+}
+
+// CollectSyms adds the free symbols ("s:"+name) and uninterpreted function names ("u:"+name) of t to out.
+func CollectSyms(t *T, seen map[*T]struct{}, out map[string]struct{}) {
+	if t.Op == OConst {
+		return
+	}
+	if _, ok := seen[t]; ok {
+		return
+	}
+	seen[t] = struct{}{}
+	switch t.Op {
+	case OSym:
+		out["s:"+t.Name] = struct{}{}
+		return
+	case OUF:
+		out["u:"+t.Name] = struct{}{}
+	}
+	for _, a := range t.A {
+		CollectSyms(a, seen, out)
+	}
 }
